@@ -279,10 +279,10 @@ def decide(pairs, pc, *, extra=(), pin=None, timeout_ms=30000, twin=True, box=No
         nq += 1
         STATS["twin_" + twin_status] += 1
     s.add(z3.Or(*goals) if len(goals) > 1 else goals[0])
-    if dump:
-        with open(dump, "w") as f:
-            f.write(s.to_smt2())
     r = str(s.check())
+    if dump is not None and r in ("sat", "unsat"):
+        # solver diff (thorough tier, seeded sample): the same query through the z3 4.8.12 and cvc5 1.0.3 binaries
+        dump.append(cross_check(s.to_smt2(), r))
     nq += 1
     dt = time.time() - t0
     STATS["queries"] += nq
@@ -293,6 +293,34 @@ def decide(pairs, pc, *, extra=(), pin=None, timeout_ms=30000, twin=True, box=No
         point = lw.model_point(s.model())
     reason = s.reason_unknown() if r == "unknown" else ""
     return Verdict(r, point, dt, twin_status, reason, nq)
+
+
+def cross_check(smt2, expected, timeout=60):
+    """-> dict(z3_old=..., cvc5=..., agree=bool): `unknown`/timeouts of the other solvers are not disagreements"""
+    import os
+    import subprocess
+    import tempfile
+    text = "(set-logic QF_NRA)\n" + "\n".join(ln for ln in smt2.splitlines() if not ln.startswith("(set-info")) + "\n"
+    if "(check-sat)" not in text:
+        text += "(check-sat)\n"
+    out = {"expected": expected}
+    with tempfile.NamedTemporaryFile("w", suffix=".smt2", delete=False) as f:
+        f.write(text)
+        path = f.name
+    try:
+        for name, cmd in (("z3_4.8.12", ["/usr/bin/z3", "-T:%d" % timeout, path]),
+                          ("cvc5_1.0.3", ["cvc5", "--tlimit=%d" % (timeout * 1000), path])):
+            try:
+                p = subprocess.run(cmd, capture_output=True, text=True, timeout=timeout + 10)
+                ans = [ln.strip() for ln in p.stdout.splitlines() if ln.strip() in ("sat", "unsat", "unknown")]
+                out[name] = "error" if "(error" in p.stdout + p.stderr else (ans[-1] if ans else "unknown")
+            except subprocess.TimeoutExpired:
+                out[name] = "timeout"
+    finally:
+        os.unlink(path)
+    out["agree"] = all(out[k] in (expected, "unknown", "timeout", "error") for k in ("z3_4.8.12", "cvc5_1.0.3"))
+    out["confirmed_by"] = [k for k in ("z3_4.8.12", "cvc5_1.0.3") if out[k] == expected]
+    return out
 
 
 def find_model(constraints_pc, *, neg_paths=(), timeout_ms=10000, monotone=True, prefer=None):
